@@ -36,24 +36,6 @@ Theorem C31_pathmatch_partial fuel pattern path base isdir b :
 Proof. exact (pathmatch_fuel_spec fuel pattern path base isdir b). Qed.
 Print Assumptions C31_pathmatch_partial.
 
-(* The canonical-form restriction is forced: the iterator reads "a//b" as "ab"
-   (and "/../a" as "a"), so "a/b" does not match the path "a//b". *)
-Theorem C31_pathmatch_canon_refuted :
-  exists pattern path,
-    fast_ok pattern [] = true /\
-    pathmatch_model pattern path [] false = Some false /\ pathmatch_spec pattern path [] false.
-Proof. exact pathmatch_canon_refuted. Qed.
-Print Assumptions C31_pathmatch_canon_refuted.
-
-Theorem C31_iterator_canon_refuted :
-  (exists a, iter_read a [] <> canon (join_raw a [])) /\
-  iter_read [97; SL; SL; 98] [] = [97; 98] /\
-  iter_read [SL; DOT; DOT; SL; 97] [] = [97] /\
-  canon [97; SL; SL; 98] = [97; SL; 98] /\
-  canon [SL; DOT; DOT; SL; 97] = [SL; 97].
-Proof. exact iter_canon_refuted. Qed.
-Print Assumptions C31_iterator_canon_refuted.
-
 (* The iterator reads a string without empty, "." or ".." components and
    without trailing separator (canonical_b, a syntactic check) back unchanged. *)
 Theorem C31_iterator_identity_on_canonical a b :
@@ -113,6 +95,15 @@ Theorem C31_select_sound_partial ign acc filt key inputs p :
                  match filt with Some f => f p = true | None => True end.
 Proof. exact (select_files_selected ign acc filt key inputs p). Qed.
 Print Assumptions C31_select_sound_partial.
+
+(* the inputs on which the iterator deviated before fix 5cbe6ed are now read canonically *)
+Example C31_iterator_fixed_witnesses :
+  iter_read [97; SL; SL; 98] [] = canon [97; SL; SL; 98] /\
+  iter_read [SL; DOT; DOT; SL; 97] [] = canon [SL; DOT; DOT; SL; 97] /\
+  iter_read [SL; SL; 97] [] = [SL; 97] /\ iter_read [SL; DOT; DOT] [] = [SL] /\
+  pathmatch_model [97; SL; 98] [97; SL; SL; 98] [] false = Some true /\
+  reads_canon_b [97; SL; 98] [97; SL; SL; 98] [] = true.
+Proof. exact iter_fixed_witnesses. Qed.
 
 (* premises are inhabited *)
 Example C31_premises_ok :
